@@ -191,6 +191,7 @@ def main():
     a = ap.parse_args()
 
     signal.signal(signal.SIGALRM, _alarm)
+    os.environ["VERIF_SHARD"] = str(a.shard)
     t0 = time.time()
     out = {"harness_error": None}
     try:
